@@ -13,6 +13,7 @@ package main
 import (
 	"fmt"
 	"math/rand/v2"
+	"regexp"
 	"sort"
 	"strconv"
 	"strings"
@@ -2205,6 +2206,8 @@ func c30Sig(what string, pr *c30Probe, arm int) string {
 	return fmt.Sprintf("%s:%s:%s:%s", what, shape, pr.v.kindName(), typed)
 }
 
+var c30ValRebindRe = regexp.MustCompile("local value `([A-Za-z_][A-Za-z0-9_]*)` cannot be reassigned")
+
 func c30StripDigits(s string) string {
 	return strings.Map(func(r rune) rune {
 		if r >= '0' && r <= '9' {
@@ -2222,6 +2225,12 @@ func c30Outcome(pr *c30Probe) (class string, arm int, run *c30Run) {
 		return "panic:" + run.res.PanicPhase + ":" + panicSite1(run.res.PanicStack), -1, run
 	case run.res.Rejected:
 		if run.other != "" {
+			// a `val` pattern declaration that binds one name twice is rightly rejected ("local value `x` cannot be
+			// reassigned"): an artefact of this generator (shorthand keys reused in nested patterns), not a defect.
+			// The wildcard `_` is different (listed finding: `_` is a real value in a val pattern).
+			if m := c30ValRebindRe.FindStringSubmatch(run.other); pr.form == 4 && m != nil && m[1] != "_" {
+				return "", 0, run
+			}
 			return "rejected:" + head(c30StripDigits(run.other), 50), -1, run
 		}
 		return "", 0, run
@@ -2484,7 +2493,7 @@ func init() {
 			"the printed arm and bindings (parsed back from inspect output) are compared with a left-to-right first-failure reference matcher; violations are delta-minimised; distinct = (root pattern kind, value kind, typing, form) and range shape cells",
 		NumCases: func(tier string) int {
 			if tier == "thorough" {
-				return 40000
+				return 15000
 			}
 			return 1000
 		},
